@@ -364,6 +364,15 @@ def run(rep, tier):
         rep.bad("C14.R4", rc, rc.loc, "no-wait", "remove_callback does not wait for a callback that is executing on another thread: the "
                 "stop_callback destructor can return while its callback is still running")
     rm = [(b, i, ev) for b, i, ev in rc.all_events() if ev.get("k") == "call" and callee_short(ev) == "remove_this_callback"]
+    # the unlink attempt is unconditional: request_stop runs the callbacks one at a time with the lock released, so a callback can still be
+    # linked although stop has been requested (an earlier callback is running); skipping the attempt lets the stopper invoke a destroyed callback
+    from engine.kinds import bypass_path as _bp4
+    byp = _bp4(rc, lambda e: e.get("k") == "call" and callee_short(e) == "remove_this_callback")
+    if rm and byp is None:
+        rep.ok("C14.R4", rc, "remove_callback tries to unlink the callback on every path (whatever the stop state)")
+    else:
+        rep.bad("C14.R4", rc, rc.loc, "unlink-skipped", "remove_callback can finish without having tried to unlink the callback (path over blocks %s): a callback that is still queued "
+                "while an earlier one is executing - stop already requested - stays linked, and request_stop invokes it after its destructor has returned" % (byp,))
     if len(rm) == 1:
         b, i, ev = rm[0]
         blk = rc.blocks[b]
